@@ -45,10 +45,20 @@ class UserDeleteEdge(ActionGroup):
                 UpdateTrackIDs(self.tracks, edge[1], new_track_id, new_lineage_id)
             )
         elif out_degree == 1:  # removed a division edge
-            # sibling gets parent's track id (lineage stays the same)
+            # sibling gets parent's track id (its lineage stays the same)
             sibling = next(iter(self.tracks.graph.successors(edge[0])))
             new_track_id = self.tracks.get_track_id(edge[0])
             self.actions.append(UpdateTrackIDs(self.tracks, sibling, new_track_id))
+            # the detached child keeps its track id, but it and everything
+            # downstream of it start a new lineage
+            self.actions.append(
+                UpdateTrackIDs(
+                    self.tracks,
+                    edge[1],
+                    self.tracks.get_track_id(edge[1]),
+                    self.tracks.get_next_lineage_id(),
+                )
+            )
         else:
             raise InvalidActionError(
                 f"Expected degree of 0 or 1 after removing edge, got {out_degree}"
